@@ -36,6 +36,7 @@ class C09(_BldProp):
         progs = BG.set_length_everywhere(rng, n // 5)
         progs += [BG.rand_program(rng, maxops=10) for _ in range(n)]
         progs += BG.boundary_programs(rng)
+        progs += BG.small_exhaustive(3 if tier == "quick" else 4)
         if tier == "thorough":
             progs += [BG.rand_program(rng, maxops=8, big=True) for _ in range(3000)]
         return progs
@@ -101,6 +102,7 @@ class C10(_BldProp):
             progs.extend(BG.metamorphic_variants(rng, p))
             self._groups.append((start, len(progs)))
         progs += BG.boundary_programs(rng)
+        progs += BG.small_exhaustive(3 if tier == "quick" else 4)
         return progs
 
     def project(self, op, line):
@@ -152,7 +154,7 @@ class C07(_BldProp):
 
     def programs(self, tier, rng):
         n = 1500 if tier == "quick" else 40000
-        self._wire = BG.wire_programs(rng, n)
+        self._wire = BG.wire_programs(rng, n) + BG.near_limit_wire_programs(rng)
         return [p for p, _ in self._wire]
 
     def gen(self, tier, rng):
